@@ -107,10 +107,15 @@ def frag_roots(model) -> dict:
     return out
 
 
-def canon(e):
+def canon(e, nodecl: bool | None = None):
     if not isinstance(e.tag, str):
         return ("#" + getattr(e.tag, "__name__", "node"), e.text, None, None, [], {})
-    own = {k: v for k, v in e.nsmap.items() if e.getparent() is None or e.getparent().nsmap.get(k) != v}
+    if nodecl is None:
+        nodecl = c01.no_child_decls(e)  # once per tree; see there
+    if nodecl and e.getparent() is not None:
+        own = {}
+    else:
+        own = {k: v for k, v in e.nsmap.items() if e.getparent() is None or e.getparent().nsmap.get(k) != v}
     # white space between child elements is layout, not information (libxml2 keeps indentation runs longer than 300
     # characters - nesting deeper than ~148 - as text even with remove_blank_text; the writer ignores them again)
     text = e.text or None
@@ -119,7 +124,7 @@ def canon(e):
     tail = e.tail or None
     if tail is not None and not tail.strip(" \t\r\n"):
         tail = None
-    return (e.tag, dict(e.attrib), text, tail, [canon(c) for c in e], own)
+    return (e.tag, dict(e.attrib), text, tail, [canon(c, nodecl) for c in e], own)
 
 
 def diff(a, b, path=""):
@@ -209,6 +214,13 @@ def queries(model, uuids: list | None = None, touched: set | None = None, limit:
             pass
         out[u] = rec
     return out
+
+
+def shaped_up_to_empty(doc: dict) -> bool:
+    """Capella-shaped when every `""` text is read as some text (the harness' reading of the Lean predicate `wfDocE`)"""
+    def fill(e):
+        return [e[0], e[1], e[2], "x" if e[3] == "" else e[3], e[4], [fill(k) for k in e[5]]]
+    return c01.capella_shaped({"pre": doc["pre"], "root": fill(doc["root"]), "post": doc["post"]})
 
 
 def expected_uri(plugin, viewpoints: dict) -> str | None:
@@ -689,6 +701,10 @@ def save_and_compare(h: History, path: pathlib.Path, capellambse, key, cases: li
         want = {"out": b.decode("utf-8"), "wf": shaped}
         if shaped:
             want.update({"reload_is_canon": True, "info_equal": True})
+        elif shaped_up_to_empty(doc):
+            # the object layer wrote `text = ""` somewhere: the statement of `save_reload_empty`
+            want.update({"wfE": True, "reload_is_canon_drop": True, "info_equal": True})
+            out.hit("save_reload:empty-text-domain")
         cases.append(({"op": "xml.save_reload", "kind": kind, "doc": doc}, ("save_reload:" + kind, {"file": name, "log": h.log[-3:]}, want)))
         if name in roots2:
             cases.append(({"op": "xml.parse", "s": b.decode("utf-8")},
@@ -800,7 +816,7 @@ def tree_edit_cases(ctx: Ctx, out: Outcome, cases: list):
 def models(ctx: Ctx) -> list[tuple[pathlib.Path, int, int]]:
     """(aird, histories, max operations)"""
     data = common.REPO / "tests" / "data"
-    ms = [(data / "writemodel" / "WriteTestModel.aird", ctx.pick(10, 24), 40),
+    ms = [(data / "writemodel" / "WriteTestModel.aird", ctx.pick(8, 24), 40),
           (data / "melodymodel" / "5_0" / "Melody Model Test.aird", 1, ctx.pick(12, 25))]
     if ctx.thorough:
         ms += [(data / "melodymodel" / "5_2" / "Melody Model Test.aird", 1, 25),
@@ -809,6 +825,10 @@ def models(ctx: Ctx) -> list[tuple[pathlib.Path, int, int]]:
                (data / "pvmt" / "PVMTTest.aird", 4, 30),
                (data / "decl" / "empty_project_52" / "empty_project_52.aird", 4, 30)]
     return ms
+
+
+def big_model(aird: pathlib.Path) -> bool:
+    return aird.stat().st_size > 100_000 or (aird.parent / (aird.stem + ".capella")).stat().st_size > 400_000
 
 
 def run(ctx: Ctx) -> Outcome:
@@ -826,10 +846,11 @@ def run(ctx: Ctx) -> Outcome:
                 raise common.InfraError(f"cannot load corpus model {label}: {e!r}") from e
             h = History(ctx, out, m, label)
             h.cases = cases
+            h.observe_every = 2 if (big_model(aird) and not ctx.thorough) else 1
             h.snap = h.export(True)
             saves = 0
             # directed part 0: edit -> save -> exact inverse edit -> save, before anything else touched the trees
-            big = aird.stat().st_size > 100_000 or (aird.parent / (aird.stem + ".capella")).stat().st_size > 400_000
+            big = big_model(aird)
             variants = ["attribute"] if (big and not ctx.thorough) else (["attribute", "create", "move"] if hi == 0 else
                                                                           [ctx.rng.choice(["attribute", "create", "move"])])
             if not h.undo_rounds(lambda tag: save_and_compare(h, path, capellambse, (label, ctx.seed, hi, tag), cases), variants):
@@ -868,6 +889,8 @@ def run(ctx: Ctx) -> Outcome:
                 xml_ns.compare_update(out, stream, case, req["doc"], want, mv)
                 continue
             if req["op"] == "xml.history":
+                if isinstance(mv, dict) and mv.get("ok") is True:
+                    out.hit("edit-link:step-ok" if mv.get("ok_strict") else "edit-link:step-ok-only-up-to-empty-text")
                 if not (isinstance(mv, dict) and mv.get("ok") is True and mv.get("same") is True):
                     bad = mv.get("first_bad") if isinstance(mv, dict) else None
                     what = ("the edit script does not lead to the observed tree" if isinstance(mv, dict) and mv.get("same") is False
@@ -876,7 +899,8 @@ def run(ctx: Ctx) -> Outcome:
                                  "an observed API step", what + ": " + json.dumps(mv)[:200])
                 continue
             want = json.loads(json.dumps(want))
-            if isinstance(mv, dict) and mv.get("wf") is False and want.get("wf") is False and "out" in want:
+            if isinstance(mv, dict) and mv.get("wf") is False and want.get("wf") is False and "out" in want \
+                    and not (mv.get("wfE") or want.get("wfE")):
                 mv = {k: v for k, v in mv.items() if k in ("out", "wf")}
             if mv != want:
                 short = lambda v: json.dumps(v, ensure_ascii=False)[:500]  # noqa: E731
